@@ -308,7 +308,31 @@ def masquerade(kinds):
 def main():
     group = sys.argv[1]
     if os.environ.get("VERIF_MASQUERADE"):
-        masquerade(os.environ["VERIF_MASQUERADE"].split(","))
+        kinds = os.environ["VERIF_MASQUERADE"].split(",")
+        # The mask normally goes on BEFORE the library is imported (import-time decisions see it too).  A library that legitimately selects an import by platform / version
+        # (`if sys.version_info < (3, 11): from backport import ...`, `if sys.platform == "win32": import msvcrt`) cannot be imported under a false identity on this
+        # machine: that is no finding.  A forked child tries the import under the mask first; if it fails there, the library is imported first and masked afterwards.
+        early = True
+        pid = os.fork()
+        if pid == 0:
+            code = 0
+            try:
+                devnull = os.open(os.devnull, os.O_WRONLY)
+                os.dup2(devnull, 1); os.dup2(devnull, 2)
+                masquerade(kinds)
+                import pkgutil, importlib, webauthn
+                for mi in pkgutil.walk_packages(webauthn.__path__, "webauthn."):
+                    importlib.import_module(mi.name)
+            except BaseException:
+                code = 3
+            os._exit(code)
+        _, status = os.waitpid(pid, 0)
+        if not (os.WIFEXITED(status) and os.WEXITSTATUS(status) == 0):
+            early = False
+            import pkgutil, importlib, webauthn
+            for mi in pkgutil.walk_packages(webauthn.__path__, "webauthn."):
+                importlib.import_module(mi.name)
+        masquerade(kinds)
     if os.environ.get("VERIF_LOGGING"):
         import logging
         logging.basicConfig(level=logging.DEBUG if os.environ["VERIF_LOGGING"] == "root" else logging.WARNING, stream=open(os.devnull, "w"))
